@@ -43,6 +43,21 @@ class ZzqSecretCustomError(Exception):
     pass
 
 
+class ZzqSecretBadReprError(Exception):
+    """An exception that cannot be printed (a detached ORM row, a closed handle ...)."""
+
+    def __repr__(self) -> str:
+        raise RuntimeError('this exception has no printable form')
+
+    __str__ = __repr__
+
+
+def _library_validation_error(m: str) -> Exception:
+    # application code re-using the library's own ValidationError inside a method body
+    from pjrpc.server.validators import ValidationError
+    return ValidationError(m)
+
+
 EXC_KINDS: Dict[str, Callable[[str], Exception]] = {
     'value': lambda m: ValueError(m),
     'key': lambda m: KeyError(m),
@@ -53,9 +68,11 @@ EXC_KINDS: Dict[str, Callable[[str], Exception]] = {
     'lookup': lambda m: IndexError(m),
     'oserror': lambda m: OSError(m),
     'validation_like': lambda m: ValueError({'loc': m}),
+    'validation': _library_validation_error,
+    'badrepr': lambda m: ZzqSecretBadReprError(m),
 }
 EXC_CLASS_NAMES = ['ValueError', 'KeyError', 'TypeError', 'AssertionError', 'RuntimeError',
-                   'ZzqSecretCustomError', 'IndexError', 'OSError']
+                   'ZzqSecretCustomError', 'IndexError', 'OSError', 'ZzqSecretBadReprError']
 
 DATA_MODES = ('absent', 'null', 'value')
 
@@ -181,6 +198,11 @@ def typed_default_valid(arguments):
 VALIDATED = {'typed': (TYPED_SCHEMA, typed_valid), 'typed_default': (None, typed_default_valid)}
 
 
+def b_vecho(tok, value=None):
+    """Body of the class-based view method ``vecho`` (a fresh view instance serves every request)."""
+    return [tok, value]
+
+
 def b_ctx_echo(ctx, tok, value=None):
     return value
 
@@ -188,7 +210,7 @@ def b_ctx_echo(ctx, tok, value=None):
 BODIES: Dict[str, Callable[..., Any]] = {
     'echo': b_echo, 'add': b_add, 'none': b_none, 'pair': b_pair,
     'fail_proto': b_fail_proto, 'fail_exc': b_fail_exc, 'slow': b_slow, 'op_ab': b_op_ab, 'op_ba': b_op_ba, 'typed': b_typed,
-    'typed_default': b_typed_default,
+    'typed_default': b_typed_default, 'vecho': b_vecho,
 }
 SIGNATURES: Dict[str, inspect.Signature] = {name: inspect.signature(fn) for name, fn in BODIES.items()}
 
@@ -209,6 +231,10 @@ def direct(name: str, args: Tuple[Any, ...] = (), kwargs: Optional[Dict[str, Any
     return ('ok', jnorm(value))
 
 
+VIEW_METHODS = ('vecho',)
+_MISSING: Any = type('Missing', (), {'__repr__': lambda self: 'MISSING'})()
+
+
 class Service:
     """Per-run instrumented registry.
 
@@ -223,6 +249,8 @@ class Service:
         self.methods: Dict[str, Callable[..., Any]] = {}
         self.is_coro: Dict[str, bool] = {}
         for i, (name, body) in enumerate(sorted(BODIES.items())):
+            if name in VIEW_METHODS:
+                continue
             coro = flavour == 'async' or (flavour == 'mixed' and i % 2 == 0)
             self.methods[name] = self._wrap_async(name, body) if coro else self._wrap_sync(name, body)
             self.is_coro[name] = coro
@@ -318,7 +346,37 @@ class Service:
                 schema = VALIDATED[name][0]
                 method = validator.validate(method, schema=schema) if schema is not None else validator.validate(method)
             reg.add(method, name=name)
+        if names is None or 'vecho' in names:
+            reg.view(self._view_class())
         return reg
+
+    def _view_class(self) -> Any:
+        """A class-based view without context: per-call state lives on ``self`` between its suspension points."""
+        world, node, service = self.world, self.node, self
+        is_async = self.flavour != 'sync'
+
+        class SvcView(pjrpc.server.ViewMixin):
+            def __init__(self) -> None:
+                super().__init__()
+                self._seen: Any = None
+
+        if is_async:
+            async def vecho(self, tok, value=_MISSING):  # type: ignore[no-untyped-def]
+                world.rec(node, 'method.enter', method='vecho', tok=tok, args={} if value is _MISSING else {'value': value})
+                self._seen = tok
+                for k, d in enumerate(world.plan.get(('method', tok), ()) if isinstance(tok, str) else ()):
+                    await asyncio.sleep(d)
+                    world.rec(node, 'method.step', method='vecho', tok=tok, k=k)
+                world.rec(node, 'method.exit', method='vecho', tok=tok, outcome='return')
+                return [self._seen, None if value is _MISSING else value]
+        else:
+            def vecho(self, tok, value=_MISSING):  # type: ignore[no-untyped-def,misc]
+                world.rec(node, 'method.enter', method='vecho', tok=tok, args={} if value is _MISSING else {'value': value})
+                self._seen = tok
+                world.rec(node, 'method.exit', method='vecho', tok=tok, outcome='return')
+                return [self._seen, None if value is _MISSING else value]
+        SvcView.vecho = vecho  # type: ignore[attr-defined]
+        return SvcView
 
     def executions(self) -> List[Tuple[str, Any]]:
         return [(r['method'], r['tok']) for r in self.world.history
